@@ -35,7 +35,14 @@ let fuel = nat_of_int 400000
 let run_line line =
     let i = String.index line '\t' in
     let inp = String.sub line 0 i and prog = String.sub line (i + 1) (String.length line - i - 1) in
-    if inp = "P" then begin
+    if inp = "S" then begin
+      toks := List.filter (fun s -> s <> "") (String.split_on_char ' ' prog);
+      (match agree (nat_of_int 2500) (term ()) [] with None -> print_endline "SKIP" | Some true -> print_endline "AGREE" | Some false -> print_endline "DIFFER")
+    end else if inp = "ST" then begin
+      (match parse_text (cps prog) with
+       | Inl [a] -> (match agree (nat_of_int 2500) a [] with None -> print_endline "SKIP" | Some true -> print_endline "AGREE" | Some false -> print_endline "DIFFER")
+       | _ -> print_endline "SKIP")
+    end else if inp = "P" then begin
       match parse_text (cps prog) with
       | Inl asts -> print_endline ("OK " ^ String.concat " | " (List.map ser asts))
       | Inr (_, sp) -> print_endline ("SYNTAX @" ^ pspan sp)
@@ -54,4 +61,13 @@ let run_line line =
     let evs = List.rev_map (function EB (d, _, sp) -> Printf.sprintf "B%d@%s" (int_of_nat d) (pspan sp) | EA (d, _, sp, k) -> Printf.sprintf "A%d@%s#%d" (int_of_nat d) (pspan sp) (int_of_n k)) st.m_dbg.events in
     Printf.printf "%s\tOUT %s\tREST %d\tEV %s\n" res (pstr st.m_world.w_out) (List.length st.m_world.w_in) (String.concat " " evs)
     end
-let () = try while true do run_line (input_line stdin) done with End_of_file -> ()
+exception Timeout
+let () =
+  Sys.set_signal Sys.sigalrm (Sys.Signal_handle (fun _ -> Stdlib.raise Timeout));
+  let tl = try float_of_string (Sys.getenv "VERIF_MODEL_TLIMIT") with _ -> 4.0 in
+  try while true do
+    let line = input_line stdin in
+    ignore (Unix.setitimer Unix.ITIMER_REAL {Unix.it_interval = 0.0; Unix.it_value = tl});
+    (try run_line line with Timeout -> print_endline "FUEL timeout" | Stack_overflow -> print_endline "FUEL stack" | Out_of_memory -> print_endline "FUEL memory");
+    ignore (Unix.setitimer Unix.ITIMER_REAL {Unix.it_interval = 0.0; Unix.it_value = 0.0})
+  done with End_of_file -> ()
